@@ -133,7 +133,22 @@ def c19(ck):
         ck.replay_stage("body2x3policies", "MC_C08", "MC_C19_thorough.cfg", tlc_workers=12, timeout=3400)
 
 
-PROPS = {"C04": c04, "C06": c06, "C07": c07, "C08": c08, "C09": c09, "C10": c10, "C19": c19, "C05": c05, "C18": c18}
+def c20(ck):
+    ck.rule = ("model: every interleaving of 2 (thorough 3) threads x 2 calls each over a valid, a broken and an absent partial name, with "
+               "check / read / compile / insert as separate steps inside the lock; implementation: N runs, each a fresh shared Parser "
+               "(lazy store) and 7 shared Templates used by 2..16 barrier-released threads doing 3..7 random render/parse calls each "
+               "with seeded start skews, yields and dwell times inside the store's critical section; one trace per run; every call is "
+               "non-trivial (its result is compared with the same call executed alone on a fresh parser)")
+    ck.assumptions = ["real-thread schedule coverage is statistical (seeded); interleavings are exhaustive in the model only",
+                      "event order is the order of the recorder's mutex; Miss events are logged from inside the store's critical section",
+                      "a deadlock is detected by a 30 s watchdog (missing Return events)"]
+    ck.model_stage("interleavings", "MC_C20", "MC_C20_quick.cfg" if ck.tier == "quick" else "MC_C20_thorough.cfg",
+                   tlc_workers=8, timeout=3000)
+    runs = "150" if ck.tier == "quick" else "1500"
+    ck.trace_stage("realthreads", ["threads", "--runs", runs], "Trace_Threads", "Trace_Threads.cfg", heap="8g", timeout=3000)
+
+
+PROPS = {"C04": c04, "C06": c06, "C07": c07, "C08": c08, "C09": c09, "C10": c10, "C19": c19, "C20": c20, "C05": c05, "C18": c18}
 
 
 def replay_file(prop, path):
